@@ -9,10 +9,15 @@ Theorem C19_romfs_walk_bounded : forall dirmeta filemeta, bytes_ok dirmeta -> by
 Proof. intros. apply walk_bounded_total; assumption. Qed.
 Print Assumptions C19_romfs_walk_bounded.
 
-(* LZSS: at most len(code) + add_size + 1 control bytes are consumed *)
+(* LZSS: at most len(code) + add_size + 1 control bytes are consumed, and len(code) + add_size <= CODE_MAX_SIZE (35 MiB) or the
+   input is rejected before any work: the bound is (input length) + a constant *)
 Theorem C19_lzss_bounded : forall code, bytes_ok code -> decompress code <> Err OutOfFuel.
 Proof. exact decompress_total. Qed.
 Print Assumptions C19_lzss_bounded.
+
+Theorem C19_lzss_size_cap : forall code, len code + le_decode (pyslice code (Some (-4)) None) > CODE_MAX -> exists e, decompress code = Err e.
+Proof. exact decompress_size_cap. Qed.
+Print Assumptions C19_lzss_size_cap.
 
 (* a sibling link pointing back into the chain is an error, not a loop (smallest instance: one directory entry whose next-sibling
    link is its own offset) *)
